@@ -37,7 +37,7 @@ def _where(tb):
     frames = traceback.extract_tb(tb)
     for fr in reversed(frames):
         if '/spatialmath/' in fr.filename:
-            return f"{os.path.relpath(fr.filename, '/repo') if fr.filename.startswith('/repo') else fr.filename}:{fr.lineno}"
+            return f"{fr.filename[fr.filename.index('/spatialmath/') + 1:]}:{fr.lineno}"
     fr = frames[-1]
     return f"{os.path.basename(fr.filename)}:{fr.lineno}"
 
@@ -416,7 +416,7 @@ def write_replay(prop, claim_name, label, kind, inputs, extra=None):
 
 def run_replay(path, timeout=120):
     """fresh interpreter, no shims: returns dict(reproduced=bool, violations=[...], status=...)"""
-    env = dict(os.environ, PYTHONPATH=ROOT, MPLBACKEND='Agg', PYTHONDONTWRITEBYTECODE='1')
+    env = dict(os.environ, PYTHONPATH=os.environ.get('VERIF_REPO', '/repo') + os.pathsep + ROOT, MPLBACKEND='Agg', PYTHONDONTWRITEBYTECODE='1')
     try:
         out = subprocess.run([PY, '-m', 'symreal.replay', path], capture_output=True, text=True, timeout=timeout, env=env, cwd=ROOT)
     except subprocess.TimeoutExpired:
